@@ -87,7 +87,7 @@ def enc (bo : ByteOrder) (off : Nat) : Ty → Val → Option (List UInt8)
     match encList bo (o1 + padLen e.align o1) e vs with
     | none => none
     | some body =>
-      if body.length < 256 ^ 4 then
+      if body.length ≤ maxArrayLen then
         some (zeros (padLen 4 off) ++ (bytesOf bo 4 body.length ++ (zeros (padLen e.align o1) ++ body)))
       else none
   | .dict k v, .arr es =>
@@ -95,7 +95,7 @@ def enc (bo : ByteOrder) (off : Nat) : Ty → Val → Option (List UInt8)
     match encEntries bo (o1 + padLen 8 o1) k v es with
     | none => none
     | some body =>
-      if body.length < 256 ^ 4 then
+      if body.length ≤ maxArrayLen then
         some (zeros (padLen 4 off) ++ (bytesOf bo 4 body.length ++ (zeros (padLen 8 o1) ++ body)))
       else none
   | .struct fs, .struct vs =>
